@@ -1198,12 +1198,16 @@ def _r4(ctx):
     seen = set()
     for rel, cfg, label in targets:
         ctx.saw(rel)
-        sk = Skel(J.flatten(tree, rel, cfg))
+        # (a `{% set %}` variable bound to a string literal prints that text: `{% set shape = "NEQUATIONS, NEQUATIONS" %}`)
+        sk = Skel(J.propagate_sets(J.flatten(tree, rel, cfg)))
         code = sk.plain(sk.clean)
         for mm in re.finditer(r"\b(?:realtype|double|int|sunindextype|float)\s+(\w+)\s*\[([^\]]*)\]", code):
             name, size = mm.group(1), _norm(mm.group(2))
             if name not in FAMILY or not size:
                 continue
+            if size != FAMILY[name] and not _size_known(size):
+                f0 = sk.func_of_offset(mm.start())
+                size = _strip_casts(_subst_consts(size, _cpp_consts(code[(f0.start if f0 else _block_start(code, mm.start())):mm.start()])))
             ndecl += 1
             key = f"{label}:{rel.split('/')[-1]}:decl {name}[{size}]"
             if key in seen:
@@ -1226,10 +1230,14 @@ def _r4(ctx):
                 if fn == "SUNDenseMatrix":
                     w = ["NELEMENTS", "NELEMENTS"] if fname.endswith("Renorm") else ["NEQUATIONS", "NEQUATIONS"]
                 nctor += 1
-                got = [_norm(a) for a in args[:len(w)]]
+                # a size first bound to a constant local of the function (`const sunindextype neq = NEQUATIONS;`) is that size; casts
+                # do not change it
+                consts = _cpp_consts(code[(f.start if f else _block_start(code, mm.start())):mm.start()])
+                got = [_strip_casts(_subst_consts(_norm(a), consts)) for a in args[:len(w)]]
+                w = [x if x is None else _strip_casts(x) for x in w]
                 good = all(x is None or x == g for x, g in zip(w, got)) and len(got) == len(w)
                 key = f"{label}:{fname}:{fn}"
-                if good or all(_size_known(g_.replace("(sunindextype)", "").replace("n_system_per_stream", "1")) or g_ in ("CSR_MAT", "CSC_MAT") for x_, g_ in zip(w, got) if x_ is not None):
+                if good or all(_size_known(g_.replace("n_system_per_stream", "1")) or g_ in ("CSR_MAT", "CSC_MAT") for x_, g_ in zip(w, got) if x_ is not None):
                     ctx.check(good, "R4", key, (rel, code.count("\n", 0, mm.start()) + 1),
                               f"{fn} in {fname} is sized by the macros of its family", expected=str(w), found=str(got))
                 else:
@@ -1258,6 +1266,47 @@ def _size_known(size: str) -> bool:
     """the (whitespace-free) size expression is integer arithmetic over the size macros: a value that differs from the family's macro
     is then a different size, not an unknown one"""
     return bool(re.fullmatch(r"[\w()+\-*/]+", size)) and set(re.findall(r"[A-Za-z_]\w*", size)) <= _SIZE_MACROS
+
+
+def _cpp_consts(code: str) -> dict:
+    """{name: whitespace-free initialiser} of the `const` / `constexpr` locals declared in `code` whose initialiser is arithmetic over the
+    size macros (and earlier such constants)"""
+    out = {}
+    for mm in re.finditer(r"\b(?:static\s+)?(?:const|constexpr)\s+[\w:<>\s]+?[\s*&]\s*(\w+)\s*(?:=\s*([^;{}]+)|\{([^;{}]+)\})\s*;", code):
+        val = _strip_casts(_subst_consts(_norm(mm.group(2) or mm.group(3)), out))
+        if _size_known(val):
+            out[mm.group(1)] = val
+    return out
+
+
+def _block_start(code: str, off: int) -> int:
+    """offset of the `{` that opens the innermost block around `off` (0 when there is none)"""
+    depth = 0
+    for i in range(off - 1, -1, -1):
+        if code[i] == "}":
+            depth += 1
+        elif code[i] == "{":
+            if depth == 0:
+                return i
+            depth -= 1
+    return 0
+
+
+def _subst_consts(expr: str, consts: dict) -> str:
+    if not consts:
+        return expr
+    return re.sub(r"[A-Za-z_]\w*", lambda m_: (consts[m_.group(0)] if re.fullmatch(r"\w+", consts[m_.group(0)]) else "(" + consts[m_.group(0)] + ")")
+                  if m_.group(0) in consts else m_.group(0), expr)
+
+
+def _strip_casts(expr: str) -> str:
+    """the (whitespace-free) expression without C / C++ casts to an integer type"""
+    expr = re.sub(r"\((?:sunindextype|int|long|size_t|std::size_t|unsigned|unsignedint|unsignedlong)\)", "", expr)
+    prev = None
+    while prev != expr:
+        prev = expr
+        expr = re.sub(r"static_cast<[\w:\s]+>\(([^()]*)\)", r"\1", expr)
+    return expr
 
 
 def _split_args(code, i):
